@@ -75,20 +75,25 @@ pub fn profile_for(prop: &str, _tier: &str) -> Profile {
             p.mismatch_decimals_pct = 80;
         }
         "C04" | "C03" => {
-            p.w_macro = [0, 4, 3, 2, 5, 1, 3, 1, 2, 2, 1];
+            // partial closes (band + partial ratio) with funding in between are what a stale checkpoint needs
+            p.w_macro = [0, 4, 5, 5, 5, 1, 3, 1, 2, 2, 1];
             p.pyramid_pct = 80;
+            p.fluct_pct = 50;
+            p.macro_pct = 18;
         }
         "C06" | "C07" => {
-            p.w_macro = [0, 12, 3, 1, 8, 0, 1, 0, 0, 0, 0];
+            p.w_macro = [0, 12, 4, 3, 8, 0, 1, 0, 0, 0, 0];
             p.pyramid_pct = 90;
+            p.fluct_pct = 40;
             p.macro_pct = 25;
             if prop == "C07" {
                 p.feed_real_pct = 30;
             }
         }
         "C11" => {
-            p.w_macro = [0, 2, 14, 0, 0, 0, 3, 0, 2, 0, 0];
+            p.w_macro = [0, 2, 14, 4, 0, 0, 3, 0, 2, 0, 0];
             p.macro_pct = 25;
+            p.fluct_pct = 50;
         }
         _ => {}
     }
